@@ -49,6 +49,11 @@ def gen(rng, tier):
                 for blocked in (False, True):
                     for codec in (('latin_1', 'cp500') if tier != 'quick' or (n + k) % 2 else ('latin_1',) if k % 2 else ('cp500',)):
                         good = [iu.ref_wire(iu.rand_message(rng, pk, codec, nbits=rng.choice([1, 3, 7])), pk, codec, False) for _ in range(n)]
+                        if kind == 'truncated' and len(cases) % 2:
+                            # the record that will be cut short ends in a run of 0x40 (EBCDIC blanks / '@'): what can be read
+                            # of it then ends in the very bytes a block trailer consists of
+                            pad = ' ' if codec == 'cp500' else '@'
+                            good[k - 1] = iu.ref_wire({'MTI': '1240', 'DE2': '5' * 16, 'DE43': 'A' + pad * rng.randint(30, 90)}, pk, codec, False)
                         cases.append({'codec': codec, 'blocked': blocked, 'kind': kind, 'k': k, 'good': [g.hex() for g in good],
                                       'style': ['loop', 'next-then-loop', 'batches'][(n + k + len(cases)) % 3],
                                       'cut': rng.randrange(1, 20), 'big': rng.choice([6001, 6002, 70000, 0x40404040, 0xffffffff])})
